@@ -318,6 +318,44 @@ pub fn generate(prop: &str, ctx: &mut Ctx, rep: &mut Report, emit: &mut dyn FnMu
             if rng.chance(1, 2) { b.primary.bundle_control_flags |= 1; b.primary.fragmentation_offset = rng.u64b(); b.primary.total_data_length = rng.u64b(); }
         }
         emit(ctx, rep, format!("{} {}", op, show_bundle(&b)));
+        if i % 40 == 7 && prop != "C03" {
+            // the same bundle again with ONE field changed, back to back on the same thread (whatever an encoder
+            // remembers from the previous call — buffers, "same header" shortcuts — must not leak into the next)
+            let base = b.clone();
+            for k in 0..12 {
+                let mut v = base.clone();
+                match k {
+                    0 => v.primary.report_to = crate::gen::gen_eid_wf(&mut rng),
+                    1 => v.primary.destination = crate::gen::gen_eid_wf(&mut rng),
+                    2 => v.primary.source = crate::gen::gen_eid_wf(&mut rng),
+                    3 => v.primary.lifetime = std::time::Duration::from_millis(rng.u64b()),
+                    4 => v.primary.creation_timestamp = bp7::CreationTimestamp::with_time_and_seq(base.primary.creation_timestamp.dtntime(), base.primary.creation_timestamp.seqno().wrapping_add(1)),
+                    5 => v.primary.creation_timestamp = bp7::CreationTimestamp::with_time_and_seq(base.primary.creation_timestamp.dtntime().wrapping_add(1), base.primary.creation_timestamp.seqno()),
+                    6 => v.primary.bundle_control_flags ^= 0x4,
+                    7 => { if v.primary.bundle_control_flags & 1 == 1 { v.primary.total_data_length = v.primary.total_data_length.wrapping_add(1); } else { continue; } }
+                    8 => { if let Some(c) = v.canonicals.first_mut() { c.block_control_flags ^= 0x10; } else { continue; } }
+                    9 => { if let Some(c) = v.canonicals.last_mut() { c.block_number = c.block_number.wrapping_add(1); } else { continue; } }
+                    10 => { let t = match v.primary.crc { CrcValue::CrcNo => 1, CrcValue::Crc16Empty | CrcValue::Crc16(_) => 2, _ => 0 }; v.set_crc(t); }
+                    _ => { let n = v.canonicals.len(); if n >= 2 { v.canonicals.swap(0, n - 1); } else { continue; } }
+                }
+                emit(ctx, rep, format!("{} {}", op, show_bundle(&v)));
+                if k % 4 == 3 { emit(ctx, rep, format!("{} {}", op, show_bundle(&base))); }
+            }
+        }
+        if (prop == "C04" || prop == "C01") && (i == 5 || i == n / 2) {
+            // blocks beyond 1 MiB (streaming / scratch-buffer code paths), with and without reserved flag bits, and
+            // the ordinary bundles that follow them on the same thread
+            for (extra, fl) in [(1usize, 0u8), (4_097, 0x20), (0, 0x18), (3, 0x41)] {
+                let mut big = gen_bundle(&mut rng, &Opts { wf: true, max_blocks: 2 });
+                big.set_payload(rng.bytes((1 << 20) + extra));
+                big.set_crc(if extra % 2 == 0 { 1 } else { 2 });
+                for c in big.canonicals.iter_mut() { if c.block_type == 1 { c.block_control_flags = fl; } }
+                if i == 5 || ctx.tier_thorough || extra == 1 { emit(ctx, rep, format!("{} {}", op, show_bundle(&big))); }
+                let mut small = gen_bundle(&mut rng, &Opts { wf: true, max_blocks: 3 });
+                small.set_crc(1 + (extra % 2) as u8);
+                emit(ctx, rep, format!("{} {}", op, show_bundle(&small)));
+            }
+        }
         if prop == "C01" && i % 4 == 0 {
             // decode side on its own: the encoded form as a `dec` line
             let mut c = b.clone();
